@@ -640,7 +640,7 @@ fn snapshot(o: &mmtk::util::options::Options) -> Vec<(&'static str, String)> {
 }
 
 fn c39(c: &mut Check) {
-    let n = c.tier.pick(60_000, 5_000_000);
+    let n = c.tier.pick(24_000, 3_000_000);
     c.section(
         "set-from-string",
         n,
@@ -657,7 +657,9 @@ fn c39(c: &mut Check) {
 
 fn check_options(case: &OptCase) -> Outcome {
     use mmtk::util::options::Options;
-    let mut o = Options::default();
+    // Options::default() queries the OS (memory size, cpu count): build it once per thread
+    thread_local! { static DEFAULT: Options = Options::default(); }
+    let mut o = DEFAULT.with(|d| d.clone());
     let mut labels = vec![];
     let mut nt = false;
     if !case.bulk {
@@ -703,7 +705,7 @@ fn check_options(case: &OptCase) -> Outcome {
         return Outcome::pass_l(false, vec!["not_a_bulk_string"]);
     }
     let s: String = case.pairs.iter().map(|(n, v)| format!("{}={}", n, v)).collect::<Vec<_>>().join(sep);
-    let mut model = Options::default();
+    let mut model = DEFAULT.with(|d| d.clone());
     let mut expect_ok = true;
     let mut expect_panic = false;
     for (n, v) in &case.pairs {
